@@ -63,6 +63,9 @@ def run(ctx: Ctx) -> None:
     ctx.rule("D12.7", "Packing.from_log(file, instance) builds the packing "
              "for the instance it is given")
     _given_instance(ctx)
+    ctx.rule("D12.8", "a bundled setup builder uses every configuration "
+             "parameter it is given")
+    _setup_parameters(ctx)
     ctx.assumptions += [
         "P4: process.get_random() is the run's seeded generator; moptipy "
         "derives per-run seeds from the instance name",
@@ -833,3 +836,46 @@ def _given_instance(ctx: Ctx) -> None:
             "name the resources hold" if const else
             f"how self.{fld} is initialised from `{pp}` is not recognised"),
            construct="parser keeps the instance")
+
+
+
+# ------------------------------------------------------------------ D12.8
+def _setup_parameters(ctx: Ctx) -> None:
+    """A run "of the setup (algorithm, encoding, objective, instance)" is
+    the run of that setup only if the function that builds the Execution
+    puts the given pieces in: in the experiment modules every parameter of
+    a function that constructs or configures an `Execution` is read in its
+    body (a parameter that is never read is silently replaced by whatever
+    the body hard-codes)."""
+    repo = ctx.repo
+    n = 0
+    for fi in repo.all_funcs():
+        mn = fi.module.name
+        if not ("experiment" in mn.rsplit(".", 1)[-1]
+                or mn.startswith("examples")):
+            continue
+        if mn.startswith("moptipyapps.tests"):
+            continue
+        src_calls = {ast.unparse(c.func).split(".")[-1]
+                     for c in ast.walk(fi.node) if isinstance(c, ast.Call)}
+        builds = "Execution" in src_calls or any(
+            k.startswith("set_") for k in src_calls)
+        if not builds:
+            continue
+        a = fi.node.args
+        params = [x.arg for x in a.posonlyargs + a.args + a.kwonlyargs]
+        if fi.cls is not None and params:
+            params = params[1:]
+        loads = {x.id for x in ast.walk(fi.node) if isinstance(
+            x, ast.Name) and isinstance(x.ctx, (ast.Load, ast.Del))}
+        n += 1
+        for p_ in params:
+            if p_.startswith("_"):
+                continue
+            ctx.ob("D12.8", fi, fi.node, p_ in loads,
+                   f"{fi.qualname} uses its parameter `{p_}`" if p_ in loads
+                   else f"{fi.qualname} never reads its parameter `{p_}`: "
+                   "the setup it builds does not depend on what the caller "
+                   "asked for", construct=f"{fi.qualname} parameter {p_}",
+                   nontrivial=False)
+    ctx.floor("setup_builders", n, 5)
